@@ -190,5 +190,15 @@ theorem whole_program_any_gc (ctx : PCtx) (pf : Nat) (toks : List Token) (prog :
     | err e => simp [ObsRel] at o
     | panic p => exact (hnp p rfl).elim
     | fuel => exact (hr rfl).elim
+
+/-- non-vacuity: `যদি সত্য { দেখাও ১; } অথবা { দেখাও ২; }  লুপ { থামাও; } আবার;` is recognised by `unflatten`, so the hypotheses of
+    `whole_program` / `parsed_program_is_its_tree` are satisfiable by a program with a chain and a loop -/
+def exampleTree : SList :=
+  .cons (.ifChain (.bool true default) default (.mk default (.cons (.simple (.print (.num 0 default) default)) .nil) default)
+          (.else default (.mk default (.cons (.simple (.print (.num 0 default) default)) .nil) default)))
+    (.cons (.loop default (.mk default (.cons (.brk default) .nil) default) default) .nil)
+
+example : unflatten (exampleTree.flatten ++ [Stmt.eos default]) = some (exampleTree, default) := by rfl
+example : progWF (exampleTree.flatten ++ [Stmt.eos default]) = true := by decide
 end C02
 end Pakhi
